@@ -162,12 +162,27 @@ func scenarioOmni(t *traceWriter, rng *rand.Rand) {
 		{name: "tilesA", origin: stA.origin, setSz: func(n uint64) { stA.mu.Lock(); stA.size = n; stA.mu.Unlock() }, verif: key.verif, br: trA},
 		{name: "tilesB", origin: stB.origin, setSz: func(n uint64) { stB.mu.Lock(); stB.size = n; stB.mu.Unlock() }, verif: key.verif, br: trB},
 	}
+	// the other three feeder types of the shipped configuration
+	trP := newExplicitBranch("pixel", 800, nil, 0)
+	trR := newExplicitBranch("rekor", 800, nil, 0)
+	trR2 := newExplicitBranch("rekor-old", 800, nil, 0)
+	trS := newExplicitBranch("serverless", maxLeaves, nil, 0)
+	stP := &stubPixel{stubLogBase{br: trP, origin: "omni.example/pixel", signer: key.signer, mount: "/bt"}}
+	stR := &stubRekor{stubLogBase: stubLogBase{br: trR, origin: "rekor.omni.example - 1193050959916656506", signer: key.signer}, treeID: "1193050959916656506"}
+	stR2 := &stubRekor{stubLogBase: stubLogBase{br: trR2, origin: "rekor.omni.example - 3904496407287907110", signer: key.signer}, treeID: "3904496407287907110", inactive: true}
+	stS := &stubServerless{stubLogBase{br: trS, origin: "omni.example/serverless", signer: key.signer, mount: "/logs/a"}}
+	logs = append(logs,
+		&omniLog{name: "pixel", origin: stP.origin, setSz: stP.setSize, verif: key.verif, br: trP},
+		&omniLog{name: "rekor", origin: stR.origin, setSz: stR.setSize, verif: key.verif, br: trR},
+		&omniLog{name: "rekorShard", origin: stR2.origin, setSz: stR2.setSize, verif: key.verif, br: trR2},
+		&omniLog{name: "serverless", origin: stS.origin, setSz: stS.setSize, verif: key.verif, br: trS})
 	// a fork of tilesA that diverges at leaf 100, and of the sumdb log (other leaves from 150)
 	forkA := newExplicitBranch("tilesA-fork", maxLeaves, trA, 100)
 	logs[1].fork = func() { stA.mu.Lock(); stA.br = forkA; stA.mu.Unlock() }
 	yaml := "Logs:\n"
-	urls := []string{"http://sumdb.invalid", "http://tiles-a.invalid/", "http://tiles-b.invalid/"}
-	feeders := []string{"sumdb", "tiles", "tiles"}
+	urls := []string{"http://sumdb.invalid", "http://tiles-a.invalid/", "http://tiles-b.invalid/", "http://pixel.invalid/bt/", "http://rekor.invalid/?treeID=" + stR.treeID,
+		"http://rekor-old.invalid/?treeID=" + stR2.treeID, "http://serverless.invalid/logs/a/"}
+	feeders := []string{"sumdb", "tiles", "tiles", "pixel", "rekor", "rekor", "serverless"}
 	pushOnlyOrigin := "omni.example/push-only" // a log that is only ever fed through the bastion: Feeder none, not last in the file
 	pushOnlyID := f_log.ID(pushOnlyOrigin)
 	for i, l := range logs {
@@ -181,7 +196,8 @@ func scenarioOmni(t *traceWriter, rng *rand.Rand) {
 	omniwitness.ConfigLogs = []byte(yaml)
 	defer func() { omniwitness.ConfigLogs = saved }()
 	dstub := &distRec{puts: map[string]int{}}
-	client := &http.Client{Transport: hostRouter{"sumdb.invalid": sdb, "tiles-a.invalid": stA, "tiles-b.invalid": stB, "dist.invalid": dstub}, Timeout: 5 * time.Second}
+	client := &http.Client{Transport: hostRouter{"sumdb.invalid": sdb, "tiles-a.invalid": stA, "tiles-b.invalid": stB, "dist.invalid": dstub,
+		"pixel.invalid": stP, "rekor.invalid": stR, "rekor-old.invalid": stR2, "serverless.invalid": stS}, Timeout: 5 * time.Second}
 
 	wrng := rand.New(rand.NewSource(*flagSeed + 99))
 	skey, _, _ := note.GenerateKey(detReader{wrng}, "omniwit")
@@ -190,8 +206,10 @@ func scenarioOmni(t *traceWriter, rng *rand.Rand) {
 	opc := omniwitness.OperatorConfig{WitnessKeys: []note.Signer{legacy, cosig}, WitnessVerifier: cosig.Verifier(), FeedInterval: 40 * time.Millisecond,
 		RestDistributorBaseURL: "http://dist.invalid", DistributeInterval: 100 * time.Millisecond}
 
-	schedQuick := [][]uint64{{3, 200, 255, 256, 257, 600}, {5, 255, 256, 257, 700}, {1, 2, 300, 512, 513}}
-	schedThorough := [][]uint64{{3, 255, 256, 257, 65535, 65536, 65537}, {5, 255, 256, 257, 65535, 65536}, {1, 300, 65536, 65600}}
+	schedQuick := [][]uint64{{3, 200, 255, 256, 257, 600}, {5, 255, 256, 257, 700}, {1, 2, 300, 512, 513},
+		{1, 2, 3, 64, 65, 700}, {2, 9, 100, 128, 129}, {7, 8, 15, 16, 500}, {4, 255, 256, 257, 770}}
+	schedThorough := [][]uint64{{3, 255, 256, 257, 65535, 65536, 65537}, {5, 255, 256, 257, 65535, 65536}, {1, 300, 65536, 65600},
+		{1, 2, 3, 64, 65, 127, 800}, {2, 9, 100, 128, 129, 511, 800}, {7, 8, 15, 16, 500, 799}, {4, 255, 256, 257, 65535, 65536, 65793}}
 	sched := schedQuick
 	if thorough() {
 		sched = schedThorough
@@ -375,5 +393,16 @@ func scenarioOmni(t *traceWriter, rng *rand.Rand) {
 		sz, root, valid = served(l)
 		t.line("OMF store=%s phase=fork-restart log=%s witnessed=%d:%s => served=%d:%s valid=%d", storeKind, l.name, wsz, hx([]byte(wroot)), sz, hx([]byte(root)), valid)
 		stop()
+		// requests the stub log servers could not make sense of (malformed tile paths, paths beside the log's root)
+		for name, b := range map[string]*stubLogBase{"pixel": &stP.stubLogBase, "rekor": &stR.stubLogBase, "rekorShard": &stR2.stubLogBase, "serverless": &stS.stubLogBase} {
+			b.mu.Lock()
+			first := ""
+			if len(b.bad) > 0 {
+				first = b.bad[0]
+			}
+			t.line("OMR store=%s log=%s requests=%d malformed=%d first=%s", storeKind, name, b.reqs, len(b.bad), hx([]byte(first)))
+			b.bad, b.reqs = nil, 0
+			b.mu.Unlock()
+		}
 	}
 }
